@@ -340,7 +340,7 @@ fn rand_tree(r: &mut Rng, depth: usize, nleaves: usize) -> Expr {
 }
 
 pub fn run(ctx: &mut Ctx) {
-    let small = table_operands(&short_chain());
+    let small = table_operands_parsed(&short_chain());
     let tiv = table_intervals(&chain());
     // exhaustive depth-2 trees: (x op1 y) op2 z and x op2 (y op1 z) over the short-chain table
     let full = ctx.tier == Tier::Thorough;
